@@ -14,6 +14,7 @@ CHECKS = {
  "C08": ("model_checking", "InvC08 (record = fold of the MLS chain: epoch, name, description, admins, nostr id, relays) evaluated by TLC after every call of every real trace with both the record and the MLS projection bound, plus exhaustive check of the design.", "6 C08", "TLA+ invariant + TLC trace validation (rec/mdata view)"),
  "C03": ("model_checking", "InvC03 (a stored message's holder was a member of the epoch it was sent in) on every state and ActC03 (a client without an operational group neither obtains an application message nor sends) on every step of real membership histories in which observers (never-members, pending, evicted, late joiners) are fed every event and welcome; key knowledge (stored exporter secrets, MLS past-epoch window, rollback restoring older maps) is explicit spec state.", "6 C03", "TLA+ invariant + action property checked by TLC on recorded traces; symbolic cryptography"),
  "C06": ("model_checking", "ActC06: on every step of every real trace, a process_message call whose result class is a refusal (Err, Unprocessable, PreviouslyFailed, IgnoredProposal) leaves the bound observable state (epoch/chain, members, group data, pending commit and proposals, stored messages, record) unchanged, and no call panics; hostile events are spec events of kind junk (12 classes, incl. tampered copies of real commits/messages that follow the real event's framing up to the AEAD check), instantiated by seeded mutation. Listed findings excused narrowly.", "6 C06", "TLA+ action property checked by TLC on recorded traces with spec-level hostile event classes"),
+ "C12": ("fault_enumeration", "Hook H2 numbers every storage operation of an API call on SQLite (with read/write flag and transaction-internal ticks); for every index k the process is killed there (panic, connection abandoned), the file reopened, the interrupted call and all later events re-run and the outcome compared with the uninterrupted run. Crash.tla assigns the verdict from the surviving write prefix (intended: always recovered; as built: the listed NoTransactionAroundCall shapes) and TLC validates every experiment against it; storage-level snapshot / rollback / relay replacement must be all-or-nothing. MCCrash checks the crash model's own invariants exhaustively.", "6 C12", "crash-point enumeration via hook H2 with verdicts from a TLA+ crash model (TLC trace validation)"),
  "C14": ("exploration", "Every call of the spec-generated histories (all action/result branches of Marmot.tla incl. rollbacks, evictions, welcomes, restarts) runs with a capturing tracing subscriber and with Display/Debug of every returned error and processing result; a scan for group ids, exporter secrets and the db key (hex and byte-list forms) is attached to each trace line and the trace invariant leak = {} is evaluated by TLC. TLA+ contributes the histories and the coverage labels, not a model of logging — hence exploration.", "6 C14", "scan attached to TLA+-generated histories (trace invariant leak = {})"),
  "C16": ("model_checking", "ProcessWelcome/Accept/Decline are spec actions (dedup by wrapper id, stored welcome by rumor id); InvC16 (Active only by creation or accepted welcome), ActC16Join (joiner lands on the inviter's post-commit chain with the rotation obligation), ActC16 (no welcome call changes a group the user is active in; listed finding excused) are evaluated by TLC on every step of real directed-random invitation scenarios, full group projection bound.", "6 C16", "TLA+ invariant + action properties checked by TLC on recorded traces"),
  "C18": ("model_checking", "InvC18 (cached last-message pointer = head of the default order among non-invalidated messages) evaluated by TLC after every call of every real trace with the pointer and the message table bound; storage-level ordering/pagination is checked by the Storage engine.", "6 C18", "TLA+ invariant + TLC trace validation (last/msgs view)"),
@@ -28,7 +29,9 @@ def main():
                    "enable": "harness/.cargo/config.toml sets rustflags --cfg mdk_verif for the path-dependency build of /repo's crates",
                    "baseline_off_cmd": "cd /repo && cargo test --workspace --no-fail-fast --offline",
                    "source_commits": hooks, "add_only": True},
-         "engines": [{"name": "marmot", "path": "spec/Marmot.tla", "serves_properties": sorted(CHECKS.keys()),
+         "engines": [{"name": "crash", "path": "spec/Crash.tla", "serves_properties": ["C12"],
+                      "kind_free_text": "crash-point enumeration (hook H2) + TLA+ crash model validated per experiment"},
+                     {"name": "marmot", "path": "spec/Marmot.tla", "serves_properties": sorted(CHECKS.keys()),
                       "kind_free_text": "TLA+ spec of clients x events x MIP-03 race/rollback; TLC exhaustive (MCMarmot) + trace validation (MarmotTrace) of real MDK clients driven by harness/"}],
          "checks": [], "notes": "see DESIGN.md; known findings in known_findings.json", "not_applicable": []}
     for pid in props:
@@ -38,7 +41,7 @@ def main():
                                 "thorough_cmd": "./check %s --tier thorough" % pid,
                                 "evidence_file": "/verif/evidence/%s.json" % pid,
                                 "replay_cmd_template": "./check %s --replay {path}" % pid,
-                                "engine": "marmot",
+                                "engine": "crash" if pid == "C12" else "marmot",
                                 "level_claimed": {"category": lvl, "text": text, "design_ref": "DESIGN.md section " + ref},
                                 "level_note": TRUST, "technique": tech})
         else:
